@@ -73,6 +73,9 @@ const splitCap = 200000
 func (ex *Exec) callSplit(fn *ssa.Function, args []Value, bind []Value, g *Term) Value {
 	var idx []int
 	total := 1
+	if len(args) > 2 {
+		return ex.callFunction(fn, args, bind, g)
+	}
 	for i, a := range args {
 		if t, ok := a.(*Term); ok && t.op == OpCases && len(t.cases) >= splitMin {
 			idx = append(idx, i)
@@ -89,21 +92,26 @@ func (ex *Exec) callSplit(fn *ssa.Function, args []Value, bind []Value, g *Term)
 	var parts []part
 	cur := make([]Value, len(args))
 	copy(cur, args)
-	var rec func(k int, gg *Term)
-	rec = func(k int, gg *Term) {
-		if gg.IsFalse() {
+	var rec func(k int, lg *Term)
+	rec = func(k int, lg *Term) {
+		if lg.IsFalse() {
 			return
 		}
 		if k == len(idx) {
-			parts = append(parts, part{gg, ex.callFunction(fn, cur, bind, gg)})
+			ag := And(g, lg)
+			if ag.IsFalse() {
+				return
+			}
+			// values are merged under the case guards only (independent of the calling context)
+			parts = append(parts, part{lg, ex.callFunction(fn, cur, bind, ag)})
 			return
 		}
 		for _, c := range args[idx[k]].(*Term).cases {
 			cur[idx[k]] = c.V
-			rec(k+1, And(gg, c.G))
+			rec(k+1, And(lg, c.G))
 		}
 	}
-	rec(0, g)
+	rec(0, True)
 	if len(parts) == 0 {
 		return ex.zeroResult(fn.Signature)
 	}
